@@ -8,6 +8,12 @@ claims = {
          "gqlparser runs natively on concrete strings; scenario schemas/operations are a fixed list; one canonical goroutine schedule; encoding/json = abstract codec"),
  "C02": ("DESIGN.md §4 C02", "Same interpreted request path as C01 with per-sub-request obligations: every sub-request the fake services receive is parsed and validated by the real gqlparser against the receiving service's own schema; every variable it uses is declared and accompanied by the client's (symbolic) value; the union of sub-requests covers every client-selected (type, field); additions are only id/__typename/node.",
          "gqlparser runs natively; scenario list; worlds with non-empty lists so every child step is issued; canonical schedule"),
+ "C03": ("DESIGN.md §4 C03-C05", "ExtendMergerFunc.Merge (mergeTypes, mergeRootObjects, mergeCustomObjects(Fields), implements/possible types/directives, gqlparser's formatter) and SanitizeNodeMergerFunc interpreted end to end over the SymSchema descriptor (2 services x 7 kinds of shared type x field subsets x field signature variants x root-field toggles; 3 services x 3 kinds in thorough): on success every declared type/field/argument (name, type, default)/enum value/union member/implements edge is present with the same signature, nothing else is, a type declared by several services appears once, the node-hiding merger differs only by Query.node.",
+         "descriptor-bounded schemas rendered to SDL per path; gqlparser.LoadSchema native"),
+ "C04": ("DESIGN.md §4 C03-C05", "TypeURLMap.SetFromSchema/Get/GetURLs/GetTypeIsImplementsNode after an interpreted Merge over the SymSchema descriptor: every root field routes to its declaring service, every field of the shared object type routes to a service that declares it, IsImplementsNode iff implements Node, GetURLs = contributing services, no field of the merged schema without a route.",
+         "descriptor-bounded schemas; gqlparser.LoadSchema native"),
+ "C05": ("DESIGN.md §4 C03-C05", "Merge over the SymSchema descriptor under every permutation of the service list: each conflict of the property's list (same root field twice, one name for different kinds, Node in one service only, overlapping non-id field of a Node type, partially overlapping plain type/input, different field signature, different union members) must yield an error and never a panic; acceptance, merged type/field signature and Node-field routes must not depend on the order.",
+         "descriptor-bounded schemas; gqlparser.LoadSchema native; the expected verdict comes from a 30-line reference predicate over the descriptor"),
  "C06": ("DESIGN.md §4 C06", "Mutation operations over two services with mutation roots, x 3 configurations (plain, id hint, caching planner primed with the same-selection query) x single downstream fault (which service, which call): each selected mutation root field is executed exactly once per client request in a `mutation` sub-request at its owner, everything else is a `query` through node.",
          "gqlparser runs natively; scenario list of 6 mutation operations; single faults only; canonical schedule"),
  "C07": ("DESIGN.md §4 C07", "parseRequest/IsBatchMode over every JSON shape of the descriptor and injectFile over every path of <= 4-5 structured segments (numerals symbolic in [-2,3]) x variable trees: no panic (every implicit Go run-time check is an obligation), acceptance iff well-formed, upload lands where the path says.",
